@@ -211,6 +211,18 @@ pub fn run(cx: &Ctx) {
     let big = cx.by(6000, 30000);
     cx.label("generated");
     cx.run_pt(&MergeAll, cases, w, move || chunked_strategy(3000, big, 11.9), "random data sets n <= 30000 (quick 6000) x random chunkings x 4 tree modes");
+    cx.label("long-chunks");
+    {
+        // chunks longer than 2^16 elements (products of sample sizes beyond u32/u64 range show up only here)
+        let pl = gen::Placement { shape: 7, order: 0, ls: 0.3, lk: Some(1.0), neg: false };
+        let xs = gen::bulk_dataset(300_000, cx.seed ^ 0xC02, &pl);
+        let cases = vec![
+            Chunked { xs: xs.clone(), cuts: vec![150_000], merges: vec![0] },
+            Chunked { xs: xs.clone(), cuts: vec![100_000, 200_000], merges: vec![1, 0] },
+            Chunked { xs, cuts: vec![70_000, 140_000, 210_000], merges: vec![0, 1, 0] },
+        ];
+        cx.run_list(&MergeAll, cases, "one trending input of 3*10^5 elements cut into 2, 3 and 4 chunks of > 2^16 elements");
+    }
     if cx.thorough() {
         let bulk = move || {
             (any::<u64>(), gen::placement(11.9), gen::cut_mode(), gen::tree_mode()).prop_map(move |(seed, pl, cm, tm)| {
